@@ -64,6 +64,18 @@ would finish if left alone (`none` = never). -/
 def expected (deadlines : List (Option Nat)) (finish : Option Nat) : Expect :=
   expected' (shortest deadlines) finish
 
+/-! ### Several calls on one channel / one connection
+
+The property speaks of "a call", its caller's grpc-timeout and "the locally configured timeout":
+nothing another call said is a deadline of this one.  So every call of a sequence — issued after
+others, or while others are still running — must be observed exactly as if it were alone on a
+fresh channel with the same configuration. -/
+
+/-- `calls`: per call, the caller's deadline and when the call would finish if left alone;
+times count from each call's own dispatch. -/
+def expectedEach (configured : Option Nat) (calls : List (Option Nat × Option Nat)) : List Expect :=
+  calls.map fun c => expected [c.1, configured] c.2
+
 /-! ### A caller that looks late
 
 The deadline counts from the moment the call was DISPATCHED ("once the shorter of … has elapsed"),
